@@ -58,8 +58,8 @@ class Acc:
 
 
 class It:
-    def __init__(self, items, pos=0):
-        self.items, self.pos = list(items), pos
+    def __init__(self, items, pos=0, from_vec=False, fn=None):
+        self.items, self.pos, self.from_vec, self.fn = list(items), pos, from_vec, fn
 
 
 class Vec:
@@ -136,6 +136,8 @@ class MillerDomain:
         d = fk.d
         # ---- iterators over literals
         if n in ("iter", "into_iter") and len(a) == 1:
+            if isinstance(a[0], Vec):
+                return It(a[0].items, 0, True)
             if isinstance(a[0], Tup):
                 return It(a[0].items)
             if isinstance(a[0], It):
@@ -143,6 +145,10 @@ class MillerDomain:
             if isinstance(a[0], Adt) and a[0].name.endswith("ops::Range") and all(isinstance(x, int) for x in a[0].fields):
                 return It(range(a[0].fields[0], a[0].fields[1]))
             return TOP
+        if n in ("deref", "as_slice", "as_ref", "borrow") and len(a) == 1 and isinstance(a[0], Vec):
+            return a[0]
+        if n == "map" and len(a) == 2 and isinstance(a[0], It) and a[0].fn is None:
+            return It(a[0].items, a[0].pos, a[0].from_vec, args[1])       # lazy: the closure runs when an element is taken
         if n == "rev" and len(a) == 1:
             if isinstance(a[0], Adt) and a[0].name.endswith("ops::Range") and all(isinstance(x, int) for x in a[0].fields):
                 return It(reversed(range(a[0].fields[0], a[0].fields[1])))
@@ -153,7 +159,12 @@ class MillerDomain:
             it = a[0]
             if it.pos < len(it.items):
                 v = it.items[it.pos]
-                store_through(ex, args[0], It(it.items, it.pos + 1))
+                if it.from_vec:
+                    self.events.append(("coeff", it.pos))
+                store_through(ex, args[0], It(it.items, it.pos + 1, it.from_vec, it.fn))
+                if it.fn is not None:
+                    from core.absexec import call_value
+                    v = call_value(ex, it.fn, [v])
                 return Adt("core::option::Option", "Some", [v])
             return Adt("core::option::Option", "None", [])
         if n == "leading_zeros" and len(a) == 1 and isinstance(a[0], int):
@@ -201,8 +212,11 @@ class MillerDomain:
             g = Line("line", a[0].form, a[1].form)
             store_through(ex, args[0], Pt(padd(a[0].form, a[1].form)))
             return g
-        if role == "sparse" and len(a) >= 3:
-            return a[-3] if isinstance(a[-3], Line) else TOP
+        if role == "sparse":
+            ls = [x for x in a if isinstance(x, Line)]
+            if ls and all(x is ls[0] or (x.kind, x.T, x.X) == (ls[0].kind, ls[0].T, ls[0].X) for x in ls):
+                return ls[0]
+            return TOP
         # ---- accumulators
         if n == "one" and not a and "Fq12" in fk.i:
             return Acc(1)
@@ -242,6 +256,10 @@ class MillerDomain:
 
     def aggregate(self, ex, adt, variant, ops):
         return NotImplemented
+
+    def field(self, ex, v, i):
+        # the components of a stored coefficient triple stand for the line they encode
+        return v if isinstance(v, Line) else TOP
 
     def refine(self, ex, fr, cond, truth):
         if cond[1] == "iszero" and truth:
